@@ -38,6 +38,8 @@ def new_interp(float_mode=False):
 # ------------------------------------------------------------------------------------------------
 # concrete side process
 # ------------------------------------------------------------------------------------------------
+FRAME_CLAUSE = "module_level_state_is_not_written"
+
 class ConcProc(object):
     def __init__(self):
         env = dict(os.environ)
@@ -137,6 +139,8 @@ def run_obligation(name, tier="quick", seed=0, do_diff=True):
         called = []
         ip.trace_calls = called
 
+        frame_paths = {"ok": 0, "bad": 0}
+
         def thunk(core):
             se = SymE(core, ip)
             try:
@@ -144,6 +148,17 @@ def run_obligation(name, tier="quick", seed=0, do_diff=True):
             except PyRaise as pr:
                 core.ensure("no-unexpected-exception", False,
                             note="escaped: %s%r" % (pr.exc.cls.name, pr.exc.args))
+            finally:
+                # frame condition of every function under contract: objects that exist before any call (created by
+                # the module body: class attributes, module constants) are never written.  Also what keeps the
+                # exploration itself sound, since the module body is executed once per interpreter.
+                mark = getattr(ip, "module_mark", None)
+                bad = [(sn, fld) for sn, fld in ip.writes if mark is not None and isinstance(sn, int) and sn < mark]
+                if bad:
+                    frame_paths["bad"] += 1
+                    core.ensure(FRAME_CLAUSE, False, note="written: %s" % sorted(set(map(str, bad)))[:4])
+                else:
+                    frame_paths["ok"] += 1
 
         tph = time.time()
         try:
@@ -191,7 +206,7 @@ def run_obligation(name, tier="quick", seed=0, do_diff=True):
         # the generated clause `no-unexpected-exception` exists only on paths that raise; when every such path turns
         # out to be infeasible (kept only because the feasibility check at exploration time gave up) that is the
         # desired outcome, not a vacuous contract
-        vacuous = [c for c, v in cover_ok.items() if v is False and c != "no-unexpected-exception"]
+        vacuous = [c for c, v in cover_ok.items() if v is False and c not in ("no-unexpected-exception", FRAME_CLAUSE)]
         rec["phase_s"]["covers"] = round(time.time() - tph, 2)
         tph = time.time()
         # discharge
@@ -211,6 +226,9 @@ def run_obligation(name, tier="quick", seed=0, do_diff=True):
             elif st == "unknown" and status == "proved":
                 status = "undecided"
                 rec["notes"].append("unknown: clause %s path %d %s" % (vc.clause, vc.path_id, attempts))
+        if frame_paths["ok"] and ob.kind != "L" and FRAME_CLAUSE not in rec["clauses"]:
+            # decided on every explored path by the executor's heap write log (no solver query needed)
+            rec["clauses"][FRAME_CLAUSE] = {"vcs": 0, "unsat": frame_paths["ok"], "sat": 0, "unknown": 0}
         if vacuous and status == "proved":
             status = "fault"
             rec["notes"].append("vacuous clauses (path condition unsatisfiable on every path): %s" % vacuous)
@@ -263,6 +281,8 @@ def summarize_replay(ans, clause):
     false_clauses = [c for c, v in r["results"] if not v]
     if clause == "no-unexpected-exception":
         out["reproduced"] = r["status"] == "escaped"
+    elif clause == FRAME_CLAUSE:
+        out["reproduced"] = clause in false_clauses
     else:
         out["reproduced"] = clause in false_clauses or r["status"] == "escaped"
     if r["status"] == "rejected":
